@@ -93,7 +93,7 @@ def main(argv=None) -> int:
         for bucket in chosen:
             lst = acc.failures[bucket]
             rep = min(lst, key=lambda f_: len(harness.jkey(f_["case"])))
-            if hasattr(mod, "candidates"):
+            if hasattr(mod, "candidates") and rep["kind"] != "task":
                 kind = rep["kind"]
                 small = harness.minimize(
                     rep["case"],
